@@ -1618,10 +1618,16 @@ def expand_opt_script(r, hist, order, D, tm, sm, exact):
         elif op in ("opt_copy", "opt_assign"):
             cmds.append({"op": op, "dst": a["dst"], "src": a["src"]})
             cur[a["dst"]] = dict(cur[a["src"]])
+            # what the copy and its source expose right now, before any further evaluation overwrites a workspace
+            cmds.append({"op": "get_optimal", "obj": a["dst"]})
+            if a["src"] != a["dst"]:
+                cmds.append({"op": "get_optimal", "obj": a["src"]})
         elif op == "opt_destroy":
             cmds.append({"op": "opt_destroy", "obj": a["obj"]})
             del cur[a["obj"]]
     # observation suffix: every live, validly configured optimizer is queried and evaluated with its built-in workspace
+    for oid in sorted(cur):
+        cmds.append({"op": "get_optimal", "obj": oid})
     for oid in sorted(cur):
         st = cur[oid]
         cmds.append({"op": "verdict", "obj": oid})
